@@ -378,6 +378,16 @@ class _G:
             d["nocache"] = True
         if self.p["partial"] and self.chance(0.35):
             d["partial"] = {"when": self.pick(["any_none", "first_falsy", "any_str"]), "exc": self.pick(EXC_TYPES)}
+        if not self.p.get("picklable") and d["form"] in ("decorator", "where") and self.chance(self.p.get("shared_factory", 0.3)) and not any(
+                d.get(k) for k in ("dispatch", "options", "default_options", "callback", "effects", "abstract", "nocache", "overloads")):
+            # made by ONE stored factory object configured with a cache class (memo = dataset(cache=MemoryCache)); every
+            # dataset it makes still has a cache of its own
+            d["shared_factory"] = True
+            earlier = [x for x in self.defs if x.get("shared_factory") and x["body"] == d["body"]]
+            if earlier and self.chance(0.6):
+                # two datasets of the factory that depend on exactly the same options
+                import copy as _copy
+                d["params"] = _copy.deepcopy(self.pick(earlier)["params"])
         return d
 
     def spec(self):
@@ -391,6 +401,17 @@ class _G:
         if not used and self.chance(0.8):
             # make sure most programs actually reach a dataset
             root = {"k": "tuple", "items": [root, {"k": "ref", "name": self.defs[-1]["name"]}]}
+        if not self.p.get("picklable") and self.p.get("memo_family", True) and self.chance(0.1):
+            # two plain datasets made by ONE stored factory object configured with a cache class, depending on exactly the
+            # same options, both reached by the program: each has a cache of its own
+            import copy as _copy
+            params = [self.leaf(False) for _ in range(self.draw(st.integers(0, 2)))]
+            twins = []
+            for _ in range(2):
+                nm = f"d{len(self.defs)}"
+                self.defs.append({"name": nm, "body": "tag", "params": _copy.deepcopy(params), "form": self.pick(["decorator", "where"]), "shared_factory": True})
+                twins.append({"k": "ref", "name": nm})
+            root = {"k": "tuple", "items": [root] + twins}
         return {"defs": self.defs, "root": root}
 
 
